@@ -439,6 +439,29 @@ Section DocOk.
     forallb sel_conds_ok (op_sels D) &&
     forallb (fun f => cond_ok (fr_cond f) && forallb sel_conds_ok (fr_sels f)) (frags D).
 
+  (** the same with the directive conjunct switchable: [sel_conds_gen true] is [sel_conds_ok],
+      [sel_conds_gen false] keeps only the type conditions.  [doc_ok_nodirs] is [doc_ok] without
+      the requirement that every @skip/@include condition be evaluable: the totality and
+      finiteness statements hold under it (the executor handles such directives: the selection is
+      left out, an error is reported); the statements about the errors do not. *)
+  Fixpoint sel_conds_gen (b : bool) (s : selection) : bool :=
+    (if b then dirs_ok s else true) &&
+    match s with
+    | SField _ _ _ _ sub => forallb (sel_conds_gen b) sub
+    | SSpread _ _ _ => true
+    | SInline tc _ _ sub =>
+        match tc with Some c => cond_ok c | None => true end && forallb (sel_conds_gen b) sub
+    end.
+  Definition conds_gen (b : bool) : bool :=
+    forallb (sel_conds_gen b) (op_sels D) &&
+    forallb (fun f => cond_ok (fr_cond f) && forallb (sel_conds_gen b) (fr_sels f)) (frags D).
+  Definition doc_ok_nodirs (n : nat) : bool :=
+    conds_gen false &&
+    match s_root_type S (op_kind D) with
+    | Some rt => sels_ok n rt (op_sels D)
+    | None => false
+    end.
+
   Definition doc_ok (n : nat) : bool :=
     conds_ok &&
     match s_root_type S (op_kind D) with
